@@ -4,8 +4,10 @@ import json, os, re
 S = "/verif/seeded"
 rows = []
 def key(d):
-    m = re.match(r"C(\d+)-(r2-)?(\d+)", d)
-    return (1 if m.group(2) else 0, int(m.group(1)), int(m.group(3)))
+    m = re.match(r"C(\d+)-(?:r(\d)-)?(\d+)$", d)
+    if not m:
+        return (9, 0, 0)
+    return (int(m.group(2) or 1), int(m.group(1)), int(m.group(3)))
 n = missed = 0
 for d in sorted(os.listdir(S), key=key):
     mp = os.path.join(S, d, "meta.json")
